@@ -79,6 +79,9 @@ func runCase(c ringlab.ChurnCfg, rep *batch.Report) batch.CaseResult {
 	rep.Count("leaves_done", int64(res.LeavesDone))
 	rep.Count("leaves_gave_up", int64(res.LeavesGave))
 	rep.Count("backend_"+ringlab.Backend(c.Backend).String(), 1)
+	if c.RealRPC {
+		rep.Count("executions_over_real_rpc", 1)
+	}
 	if res.JoinsOK+res.LeavesDone > 0 && acked > 0 {
 		out.Sig = res.EventSig
 	}
@@ -124,6 +127,14 @@ func main() {
 			c.MaxNodes = 8
 			if c.Initial > 6 {
 				c.Initial = 6
+			}
+		}
+		if !r.Quick() && i%6 == 3 && c.Backend == int(ringlab.Memory) {
+			// the real RPC path between the nodes (RemoteNode, twirp over HTTP/2, production timeouts)
+			c.NetV, c.RealRPC = false, true
+			c.MaxNodes = 6
+			if c.Initial > 4 {
+				c.Initial = 4
 			}
 		}
 		if r.WantCase(c.Name) {
